@@ -21,7 +21,7 @@ RULE = ('Generated files rendered from an abstract description with equivalent s
         'prefix/order contradiction, wrong atom count closed by "--" or too short a line, index beyond the atoms of an '
         'itp molecule) injected at a random eligible position must raise. Non-trivial .ff = >= 2 links with >= 1 top-level '
         'section between/after them; non-trivial .itp = >= 2 moleculetypes with a later one longer than the first. '
-        'distinct = distinct file texts.')
+        'distinct = distinct file texts. Also: new-style .mapping files; prefix/order contradictions drawn from {0, right+-1, -right, 2*right}; #meta keys that single lines set as well.')
 ASSUMPTIONS = ['#meta is only generated in the last subsection of its name within a block/link (the documentation leaves '
                'its scope over later same-named subsections open)',
                'the wrong-atom-count fault is only injected in the two unambiguous forms',
